@@ -337,7 +337,8 @@ fn output_result_xml<T: serde::Serialize>(result: T) -> Result<()> {
 
     /// Escape text for an XML 1.1 document: the five markup characters, and the control characters,
     /// which XML 1.1 only allows as character references (in an attribute value also tab and line
-    /// feed). U+0000 cannot be represented at all and becomes U+FFFD.
+    /// feed). U+0000 and the noncharacters U+FFFE / U+FFFF are not XML characters and cannot be
+    /// represented at all, not even as references: they become U+FFFD.
     fn xml_escape(text: &str, attribute: bool) -> String {
         let mut escaped = String::with_capacity(text.len());
         for c in text.chars() {
@@ -347,7 +348,7 @@ fn output_result_xml<T: serde::Serialize>(result: T) -> Result<()> {
                 '>' => escaped.push_str("&gt;"),
                 '"' => escaped.push_str("&quot;"),
                 '\'' => escaped.push_str("&apos;"),
-                '\0' => escaped.push('\u{FFFD}'),
+                '\0' | '\u{FFFE}' | '\u{FFFF}' => escaped.push('\u{FFFD}'),
                 // a parser would turn these into something else (line ends, attribute value normalisation)
                 '\t' | '\n' if !attribute => escaped.push(c),
                 c if c.is_control() => escaped.push_str(&format!("&#x{:X};", c as u32)),
